@@ -133,6 +133,13 @@ def run_case(args):
                 seen["A"] = sparse_entries(a[0]); seen["b"] = dense_of(a[1]); seen["which"] = which
                 nr, nc, m = seen["A"]; Ad = [[m.get((i, j), Fr(0)) for j in range(nc)] for i in range(nr)]
                 sol = solve(Ad, seen["b"][2]) if which == "cholesky_solve" else xsol
+                if which == "cholesky_solve" and C11 is not None and sol is not None:
+                    # the real cholesky_solve (extracted, executed exactly; cholmod's analyze / factorize / solve as assumed contracts), with 0..2 refinement passes
+                    try:
+                        real = C11.solve_with("cholesky_solve", Ad, seen["b"][2], nthreads=1 + len(Ad) % 3); seen["real"] = (real == sol)
+                        if real != sol: seen["real_error"] = "cholesky_solve returns %s..., the solution is %s..." % ([str(v) for v in real[:4]], [str(v) for v in sol[:4]])
+                        sol = real
+                    except G.ExecError as ex: seen["real_error"] = "%s%s" % (ex, getattr(ex, "loc", ""))
                 if which == "nnls_normal_block3" and C11 is not None:
                     # the real solver (extracted nnls_normal_block3, executed exactly by C11's machinery) on the system this fit hands over
                     try: sol = C11.solve_with("nnls_normal_block3", Ad, seen["b"][2], nthreads=1 + len(Ad) % 3, fl_mode=("default", "updates", "recompute")[len(Ad) % 3]); seen["real"] = True
@@ -218,6 +225,8 @@ def run_case(args):
                 for d in range(nd - 2, -1, -1): strides[d] = strides[d + 1] * nspl[d + 1]
                 dec = [q for q in range(side) if (q // strides[mono]) % nspl[mono] > 0 and got[q] is not None and got[q - strides[mono]] is not None and got[q] < got[q - strides[mono]]]
                 ob("G7 the coefficients written out never decrease along the monotonic dimension", not dec, "decrease at flat indices %s" % dec[:5])
+        if mono is None and C11 is not None:
+            ob("G5 the extracted cholesky_solve, run on the system of this fit, returns its exact solution", seen.get("real", False), seen.get("real_error", ""))
         if mono is None:
             best = solve(want, rhs)
             ob("G4 with an exact solver the result is the exact minimiser of the penalised weighted least-squares objective", best is not None and got == best, "coefficients differ from the minimiser")
@@ -232,12 +241,12 @@ def add(rep, thorough, monotonic, name):
     prog, params, fns = build(); PROG = (prog, params)
     for f in fns:
         if f.name in ("glamfit_complex", "flatten_ndarray_to_sparse", "box", "cholmod_tril"): rep.functions.append(f.info())
-    if monotonic:
+    if True:
         global C11
         import c11 as _c11
         p11, params11, fns11 = _c11.build(); _c11.PROG = (p11, params11); C11 = _c11
         for f in fns11:
-            if f.name in ("nnls_normal_block3", "modify_factor", "modify_factor_p", "walk_descents", "evaluate_descent", "calc_residual"): rep.functions.append(f.info())
+            if f.name in (("nnls_normal_block3", "modify_factor", "modify_factor_p", "walk_descents", "evaluate_descent", "calc_residual") if monotonic else ("cholesky_solve",)): rep.functions.append(f.info())
     tasks = problems(monotonic, thorough); t0 = time.time()
     with mp.Pool(min(vlib.NCORES, 12)) as pool: res = pool.map(run_case, tasks, chunksize=1)
     flat = [o for r in res for o in r]
